@@ -544,3 +544,39 @@ func foldedBound(bo *ssa.BinOp, taken bool, tested *ssa.Parameter, env map[ssa.V
 	}
 	return nil, nil, false
 }
+
+// ---------------------------------------------------------------------------------------
+// W3: who may move the location counter
+// ---------------------------------------------------------------------------------------
+
+func ruleW3(c *Ctx) {
+	c.doc("W3", "the location counter is written only by the registered statement handlers (and the common bodies they delegate to): no directive, label or helper outside them moves it")
+	handlers, hm := pass1Handlers(c)
+	if handlers == nil || len(hm.Errs) > 0 {
+		c.fail("W3", "handler-map-undecided", "", fmt.Sprint(hm.Errs))
+		return
+	}
+	n := 0
+	for _, f := range c.L.RepoFuncs() {
+		if c.isGeneratedFn(f) {
+			continue
+		}
+		sts := storesToField(f, "internal/pass1", "Pass1", "LOC")
+		if len(sts) == 0 {
+			continue
+		}
+		n++
+		key := shortName(f) + "|writes LOC"
+		pos := c.L.Pos(instrPos(sts[0]))
+		switch {
+		case handlers[f] || (f.Parent() != nil && handlers[outermost(f)]):
+			c.ok("W3", key, pos, "statement handler")
+		case isFreshAlloc(sts[0].Addr.(*ssa.FieldAddr).X):
+			c.ok("W3", key, pos, "initialisation of a fresh Pass1")
+		default:
+			c.fail("W3", key, pos, shortName(f)+" moves the location counter but is not a statement handler: labels after that point no longer equal origin + bytes emitted")
+		}
+	}
+	c.floor("W3", 15)
+	_ = n
+}
